@@ -108,7 +108,7 @@ def make_replay(prop, rec, failed, out_dir):
     with open(os.path.join(out_dir, "checker.c"), "w") as f:
         f.write("\n".join(C) + "\n")
     # ---- driver.cpp
-    D = ["#include <xsimd/xsimd.hpp>", "#include <cstdio>", "#include <cstring>", "#include <cstdint>",
+    D = (["#define XSIMD_WITH_EMULATED 1"] if (fn.aid or "").startswith("emu") else []) + ["#include <xsimd/xsimd.hpp>", "#include <cstdio>", "#include <cstring>", "#include <cstdint>",
          'extern "C" int verif_check(const unsigned char *ret, unsigned char **pre_args, unsigned char **post_args, int *pre_ok);',
          "int main() {"]
     k = 0
